@@ -106,10 +106,15 @@ def main():
     wd = common.scratch("c17-")
     stats = {"schedules": 0, "deadlock_ends": 0, "histories": 0}
     try:
-        exe = build_driver(wd)
+        try:
+            exe = build_driver(wd)
+        except common.MachineryError as e_:
+            # thread primitives the deterministic layer does not provide: no exploration, the real-thread runs below still happen
+            exe = None
+            stats["exploration_skipped"] = str(e_)[-300:]
         histories, meta = [], []
         seen = set()
-        for s in (SCRIPTS_QUICK if tier == "quick" else SCRIPTS_THOROUGH):
+        for s in ((SCRIPTS_QUICK if tier == "quick" else SCRIPTS_THOROUGH) if exe else []):
             nthr = s.count("|") + 1
             env = {"SCHED_SYNCLOG": "0", "SCHED_PREEMPT": "2" if nthr <= 3 else "1", "ASAN_OPTIONS": "detect_leaks=0:abort_on_error=0"}
             runs = explore.explore(exe, [s], env=env, jobs=common.NCPU, max_runs=4000 if tier == "quick" else 60000)
@@ -143,17 +148,21 @@ def main():
         rc, out, err = run(["gcc", "-O1", "-g", "-w", "-DWASM_THREADS_PTHREADS", "-I", os.path.join(REPO, "w2c2"), "-I", BINDC,
                             os.path.join(BINDC, "futex_driver.c"), os.path.join(BINDC, "real_shim.c"),
                             os.path.join(REPO, "futex", "futex.c"), os.path.join(REPO, "futex", "map.c"),
-                            os.path.join(REPO, "futex", "list.c"), "-o", real, "-lpthread"], timeout=300)
+                            os.path.join(REPO, "futex", "list.c"), "-o", real, "-lpthread", "-Wl,--wrap=pthread_cond_timedwait"], timeout=300)
         if rc != 0:
             raise common.MachineryError("cannot build the real-thread futex driver: " + err[-2000:])
         LONG = [2 ** 63 - 1, 2 ** 62, 10 ** 18, 8 * 10 ** 18, 9 * 10 ** 18, 10 ** 15]
         real_scripts = [("W%d:64:0:%d|D:20;U:64:1:1" % (b, t), "long") for t in LONG for b in (32, 64)] + \
                        [("W32:64:0:20000000", "short"), ("W64:64:0:30000000", "short"), ("W32:64:0:0", "zero"), ("W32:64:0:1", "zero"),
-                        ("W32:64:0:%d|W32:64:0:%d|D:20;U:64:5:2" % (2 ** 63 - 1, 10 ** 18), "long2")]
+                        ("W32:64:0:%d|W32:64:0:%d|D:20;U:64:5:2" % (2 ** 63 - 1, 10 ** 18), "long2"),
+                        # spurious wake-ups during a timed wait: it may last longer, never shorter than its time-out
+                        ("W32:64:0:500000000", "short", "120,260"), ("W64:64:0:400000000", "short", "50,100,150,200"),
+                        # ... and a notify inside the time-out still finds the waiter
+                        ("W32:64:0:900000000|D:450;U:64:1:1", "long", "100,250")]
 
         def run_real(sk):
-            s, kind = sk
-            rc_, so_, se_ = run([real, s], timeout=30)
+            s, kind = sk[0], sk[1]
+            rc_, so_, se_ = run([real, s], timeout=30, env={"FX_SPURIOUS": sk[2]} if len(sk) > 2 else None)
             evs = []
             for l in so_.splitlines():
                 try:
